@@ -35,6 +35,9 @@ package netpoll
 //@ ghost global tkLenZeroSeen bool
 //@ ghost global tkLiveChecked bool
 //@ ghost global cbRuns int
+// ocTrigR/ocTrigW: the closer has sent the close error to a blocked reader / flusher (ghost, per call of onClose)
+//@ ghost global ocTrigR bool
+//@ ghost global ocTrigW bool
 
 // structural object invariant of an initialised connection
 //@ pred connok(c *connection) = c != nil && c.inputBuffer != nil && c.outputBuffer != nil && c.inputBuffer != c.outputBuffer
@@ -115,7 +118,7 @@ package netpoll
 //@   ensures needLock && old(c.heldP) ==> c.heldP && c.sealed_heldP == old(c.sealed_heldP) && cbRuns == old(cbRuns)
 //@   ensures needLock && !old(c.heldP) ==> (c.heldP == c.sealed_heldP) && (c.heldP ==> cbRuns == old(cbRuns) + 1) && (!c.heldP ==> cbRuns == old(cbRuns))
 //@   ensures c.heldC == old(c.heldC) && c.heldF == old(c.heldF)
-//@   modifies world, c.heldP, c.sealed_heldP, cbRuns
+//@   modifies world, c.heldP, c.sealed_heldP, cbRuns, ocTrigR, ocTrigW
 //@   ghost after call (*atomic.Value).Load#1: c.sealed_heldP = true; cbRuns = cbRuns + 1
 //@   loop 1 invariant cinv(c) && c.heldP && c.sealed_heldP && c.keychain[closing] != 0 && cbRuns == old(cbRuns) + 1
 //@   loop 1 invariant c.heldC == old(c.heldC) && c.heldF == old(c.heldF)
@@ -128,7 +131,13 @@ package netpoll
 //@   ensures old(c.heldP) ==> c.heldP && c.sealed_heldP == old(c.sealed_heldP) && cbRuns == old(cbRuns)
 //@   ensures !old(c.heldP) ==> (c.heldP == c.sealed_heldP) && cbRuns - old(cbRuns) <= 1 && cbRuns >= old(cbRuns)
 //@   ensures c.heldC == old(c.heldC) && c.heldF == old(c.heldF)
-//@   modifies world, c.heldP, c.sealed_heldP, cbRuns
+//@   modifies world, c.heldP, c.sealed_heldP, cbRuns, ocTrigR, ocTrigW
+//@   note pattern (a closed connection never blocks its callers): the closer wakes a blocked reader and a blocked flusher before it waits for them in
+//@     closeCallback (stop(flushing) spins until the flusher has released its lock; a flusher parked on the write trigger would never release it)
+//@   ghost at entry: ocTrigR = false; ocTrigW = false
+//@   ghost after call (*connection).triggerRead#1: ocTrigR = true
+//@   ghost after call (*connection).triggerWrite#1: ocTrigW = true
+//@   ghost before call (*connection).closeCallback#1: assert ocTrigR && ocTrigW
 
 //@ func (*connection).Close
 //@   property C05 C12
@@ -138,7 +147,7 @@ package netpoll
 //@   ensures old(c.heldP) ==> c.heldP && c.sealed_heldP == old(c.sealed_heldP) && cbRuns == old(cbRuns)
 //@   ensures !old(c.heldP) ==> (c.heldP == c.sealed_heldP) && cbRuns - old(cbRuns) <= 1 && cbRuns >= old(cbRuns)
 //@   ensures c.heldC == old(c.heldC) && c.heldF == old(c.heldF)
-//@   modifies world, c.heldP, c.sealed_heldP, cbRuns
+//@   modifies world, c.heldP, c.sealed_heldP, cbRuns, ocTrigR, ocTrigW
 
 //@ func (*connection).AddCloseCallback
 //@   property C05
@@ -164,7 +173,7 @@ package netpoll
 //@   ensures (!c.heldP || c.sealed_heldP) && !c.heldC && cbRuns <= 1
 //@   ensures !c.heldP ==> tkReleased && tkSawClosing && (tkClosingVal != 0 ==> tkTriedAfterClosing) && (onRequest != nil ==> tkSawLen && (tkLenVal > 0 ==> tkTriedAfterLen))
 //@   onpanic (!c.heldP || c.sealed_heldP) && cbRuns <= 1
-//@   modifies world, c.heldP, c.heldC, c.sealed_heldP, cbRuns, tkReleased, tkSawClosing, tkClosingVal, tkTriedAfterClosing, tkSawLen, tkLenVal, tkTriedAfterLen, tkLenZeroSeen, tkLiveChecked
+//@   modifies world, c.heldP, c.heldC, c.sealed_heldP, cbRuns, ocTrigR, ocTrigW, tkReleased, tkSawClosing, tkClosingVal, tkTriedAfterClosing, tkSawLen, tkLenVal, tkTriedAfterLen, tkLenZeroSeen, tkLiveChecked
 //@   ghost after call invoke.Len#2: tkLenZeroSeen = result == 0
 //@   note after OnConnect the task holds the connecting lock, so a poller that saw the hang-up gave up on OnDisconnect: the task must look at
 //@     the closing state (closed by anybody: IsActive) and take over OnDisconnect before it lets go of the connecting lock
@@ -228,7 +237,7 @@ package netpoll
 //@   ensures result == nil && !c.heldC && (c.heldP == c.sealed_heldP)
 //@   ensures discRuns - old(discRuns) <= 1 && cbRuns - old(cbRuns) <= 1 && cbRuns >= old(cbRuns)
 //@   ensures cbRuns > old(cbRuns) ==> hupDisc
-//@   modifies world, c.heldP, c.heldC, c.sealed_heldP, cbRuns, discRuns, hupDisc
+//@   modifies world, c.heldP, c.heldC, c.sealed_heldP, cbRuns, ocTrigR, ocTrigW, discRuns, hupDisc
 //@   ghost after call (*connection).onDisconnect#1: hupDisc = true
 //@   ghost before call (*connection).closeCallback#1: assert hupDisc
 
@@ -300,7 +309,7 @@ package netpoll
 //@   requires cinv(c) && (c.sealed_heldP ==> c.heldP)
 //@   rely locker.keychain[closing]: (was != 0 ==> now != 0) && now >= 0 && now <= 2
 //@   ensures result == nil && c.keychain[closing] != 0
-//@   modifies world, c.heldP, c.sealed_heldP, cbRuns
+//@   modifies world, c.heldP, c.sealed_heldP, cbRuns, ocTrigR, ocTrigW
 
 //@ func (*connection).closeBuffer
 //@   property C03 C05
@@ -530,14 +539,14 @@ package netpoll
 //@   property C09
 //@   requires cinv(c) && c.operator.poll != nil && !c.heldP && !c.sealed_heldP && !c.heldC
 //@   ensures setupdone(c)
-//@   modifies world, c.heldP, c.sealed_heldP, cbRuns
+//@   modifies world, c.heldP, c.sealed_heldP, cbRuns, ocTrigR, ocTrigW
 //@ func (*connection).onPrepare
 //@   property C09
 //@   requires cinv(c) && c.operator.poll != nil && c.operator.owned && !c.heldP && !c.heldC && !c.sealed_heldP
 //@   threadlocal !prepDone && !prepRegistered
 //@   ensures prepRegistered ==> prepOK
 //@   ensures setupdone(c)
-//@   modifies world, locker.heldP, c.heldC, locker.sealed_heldP, locker.keychain, prepDone, prepRegistered, prepOK, cbRuns
+//@   modifies world, locker.heldP, c.heldC, locker.sealed_heldP, locker.keychain, prepDone, prepRegistered, prepOK, cbRuns, ocTrigR, ocTrigW
 //@   ghost after call dyn.onPrepare#1: prepDone = true
 //@   ghost before call (*connection).register#1: prepOK = opts == nil || opts.onPrepare == nil || prepDone; assert prepOK; prepRegistered = true
 //@ func (*connection).SetOnConnect
